@@ -35,6 +35,26 @@ CHECKS = {
              'Tie and monitors (look-ahead at every pull, concurrent calls) as for C01.',
         note=E1 + 'the pool\'s own concurrency limit is an assumption about the stdlib executor (start guard of the model).',
         ref='§5 C08', engine='E1-detsched+lean'),
+    'C15': dict(
+        technique='Lean 4 proof (structural induction over a tree model of RemoteException wrap / pickle / rebuild, nested EnsembleError results included) + exact differential comparison of the model\'s executable definitions with real pickle hops',
+        text='Theorems C15_roundtrip (any hop list, re-raised or forwarded at each hop: class and args unchanged, '
+             'is_remote_exception, remote text contains the originally formatted traceback), C15_forward_identical '
+             '(forwarding hops return the identical exception), C15_text_grows, C15_ensemble (nested exceptions preserved '
+             'hereditarily with identical text), C15_defined, C15_explicit_tb, C15_no_traceback hold for every class, '
+             'argument tuple, traceback text, cause chain, process name, hop list and nesting depth of the model; '
+             'Legacy.repaired_eq_spec / F22_witness / C15_ensemble_pinned_partial settle object sharing under pickle\'s memo '
+             '(repaired vs pinned _rebuild_exception). The model '
+             'is tied to the current /repo on every run: generated exception graphs go through real '
+             'pickle.loads(pickle.dumps(RemoteException(e))) hops and through the compiled Lean definitions (drv remoteexc); '
+             'class, args, structure and the FULL remote text of every exception after every hop must be equal; a monitor '
+             'evaluates the property statement on the real objects.',
+        note='Lean 4 kernel + axioms {propext, Classical.choice, Quot.sound}; hand-written model tied to /repo by differential '
+             'runs on the cases generated per run (sampled); pickle (class/args of a picklable exception survive, traceback and '
+             'cause do not) and traceback.format_exception (cause chain ++ own part) are modelled, not verified, and re-checked '
+             'by the exact text comparison; hops are in-process pickle round trips with the process name changed per hop; '
+             'EnsembleError message text compared modulo the RemoteException(...) wrapper; Legacy/RemoteExc.lean keeps the '
+             'pinned behaviour of finding F22 (shared exception object, pickle memo) with a witness.',
+        ref='§5 C15', engine='E3-differential+lean'),
 }
 
 CHECKS['C06'] = dict(
